@@ -481,6 +481,8 @@ pub fn run(ctx: &Ctx, which: Which) {
         COp { code: 14, a: 4, b: 0 },
         COp { code: 16, a: 7, b: 0 },
         COp { code: 0, a: 1, b: 0 },
+        COp { code: 38, a: 4, b: 0 },
+        COp { code: 38, a: 23, b: 0 },
         COp { code: 5, a: 23, b: 0 },
         COp { code: 1, a: 3, b: 0 },
     ];
@@ -517,6 +519,9 @@ pub fn run(ctx: &Ctx, which: Which) {
         // renaming the two files of the model
         COp { code: 36, a: 0, b: 0 },
         COp { code: 36, a: 1, b: 0 },
+        // clearing a reference (against rename / move of its target)
+        COp { code: 37, a: 7, b: 0 },
+        COp { code: 37, a: 15, b: 0 },
     ];
     let mut pairs: Vec<(COp, COp)> = vec![];
     for w in &writers {
